@@ -60,8 +60,10 @@ class St:
         self.queue = []
 
     def entry(self, caller, ref):
+        if not isinstance(ref, (list, tuple)) or len(ref) != 2:
+            return None
         space, i = ref
-        lst = self.arena if space == 'A' else self.callers[caller].cells
+        lst = self.arena if space == 'A' or not self.callers else self.callers[caller % len(self.callers)].cells
         if not lst:
             lst = self.arena
         if not lst:
@@ -200,7 +202,7 @@ class PoolWorld(HistoryWorld):
         if r < 0.18:
             return {'op': 'build', 'bits': _rbits(rng, nb), 'refs': refs, 'caller': caller}
         if r < 0.25:
-            return {'op': 'build_more', 'replace': self._ref(rng) if rng.random() < 0.3 else None, 'bits': _rbits(rng, rng.choice([0, 1, 3, 8, 13, 64])), 'ref': self._ref(rng) if rng.random() < 0.3 else None,
+            return {'op': 'build_more', 'slice': rng.randrange(1, 100) if rng.random() < 0.4 else 0, 'replace': self._ref(rng) if rng.random() < 0.3 else None, 'bits': _rbits(rng, rng.choice([0, 1, 3, 8, 13, 64])), 'ref': self._ref(rng) if rng.random() < 0.3 else None,
                     'fresh': rng.random() < 0.3, 'caller': caller}
         if r < 0.40:
             return {'op': 'direct', 'bits': _rbits(rng, nb), 'refs': refs, 'plain': rng.random() < 0.5, 'caller': caller}
@@ -464,6 +466,42 @@ class PoolWorld(HistoryWorld):
             pb['refs'].append(e)
         ctx.probe('builder-reused-after-end_cell')
         self._register(st, cal.cells, c, twin, ctx, 'build_more')
+        if op.get('slice') and self.prop == 'C08' and len(pb['bits']) < 1000:
+            # a slice is taken from the builder (to_slice), read from, and the builder is written to: two objects derived from one
+            # another, each going its own way.  What the slice still holds and what the builder holds must be what each did itself
+            def both():
+                sl = pb['lib'].to_slice()
+                nb_read = min(op['slice'] % 5, len(pb['bits']))
+                if nb_read:
+                    sl.load_bits(nb_read)
+                took = 0
+                if pb['refs'] and op['slice'] % 2:
+                    sl.load_ref()
+                    took = 1
+                pb['lib'].store_bits('10')
+                extra = None
+                if e is not None and len(pb['refs']) < 4:
+                    pb['lib'].store_ref(e['lib'])
+                    extra = e
+                return sl, nb_read, took, extra
+            ok3, r3 = call(both)
+            if ok3:
+                sl, nb_read, took, extra = r3
+                want_bits, want_refs = pb['bits'][nb_read:], len(pb['refs']) - took
+                pb['bits'] += '10'
+                if extra is not None:
+                    pb['refs'].append(extra)
+                ctx.probe('slice-taken-from-a-builder-that-is-written-to-afterwards')
+                if to01(sl.bits) != want_bits or sl.remaining_refs != want_refs:
+                    self.V(ctx, 'derived-object-not-isolated', 'to_slice', 'slice-sees-later-stores-of-the-builder',
+                           'a slice taken with to_slice() changed when its builder was written to afterwards (%d bits / %d refs left, expected %d / %d)'
+                           % (len(sl.bits), sl.remaining_refs, len(want_bits), want_refs))
+                elif to01(pb['lib'].bits) != pb['bits'] or len(pb['lib'].refs) != len(pb['refs']):
+                    self.V(ctx, 'derived-object-not-isolated', 'to_slice', 'builder-loses-what-the-slice-read',
+                           'reading from a slice taken with to_slice() changed the builder (%d bits held, %d stored)' % (len(pb['lib'].bits), len(pb['bits'])))
+            else:
+                cal.pbuilder = None
+                return c.hash.hex()
         if op.get('replace') and (pb['bits'] or pb['refs']):
             # the builder's (public, settable) content is replaced by other content of the SAME size, and it is finished again: the
             # cell handed out now holds the new content, the one handed out before still the old
